@@ -1,4 +1,4 @@
-import QP.Proofs.C07Main
+import QP.Proofs.C07Induction
 import QP.Proofs.C07Pad
 import QP.Proofs.C07Witness
 /-!
@@ -89,17 +89,17 @@ theorem final_index_counterexample_neg : finalIndex 5 0 (-2) = 3 ∧ (pyRange 5 
 theorem integral_correct_partial {pt : PT} {σ : Scope} {mm cm} {P : Pulse} {c o : Chan} {r : Rat}
     (hs : supported pt = true) (hreg : regular pt σ = true) (hden : denote pt σ mm cm = .ok P)
     (hinj : InjOn cm pt.definedChannels) (hc : c ∈ pt.definedChannels) (hcm : cm.lookup c = some (some o))
-    (hr : integralOf pt σ c = .ok r) : r = plIntegral (pulseVal P o) :=
-  (claim pt hs σ mm cm P c o hden hreg hinj hc hcm).1 r hr
+    (hkeep : keeps pt cm = true) (hr : integralOf pt σ c = .ok r) : r = plIntegral (pulseVal P o) :=
+  (claim pt hs σ mm cm P c o hden hreg hinj hc hcm hkeep).1 r hr
 
 /-- `initial_correct`, proved for `supported` outside the documented classes: `pt.initial_values[c]` is the value
 the first played piece starts with (the voltage at time zero) -/
 theorem initial_correct_partial {pt : PT} {σ : Scope} {mm cm} {P : Pulse} {c o : Chan} {v v' : Rat}
     (hs : supported pt = true) (hreg : regular pt σ = true) (hden : denote pt σ mm cm = .ok P)
     (hinj : InjOn cm pt.definedChannels) (hc : c ∈ pt.definedChannels) (hcm : cm.lookup c = some (some o))
-    (hclass : pathTags .first pt σ mm cm c = .ok [])
+    (hkeep : keeps pt cm = true) (hclass : pathTags .first pt σ mm cm c = .ok [])
     (hv : plEnd .first (pulseVal P o) = some v) (hv' : initialOf pt σ c = .ok v') : v' = v :=
-  (claim pt hs σ mm cm P c o hden hreg hinj hc hcm).2 .first hclass v v' hv hv'
+  (claim pt hs σ mm cm P c o hden hreg hinj hc hcm hkeep).2 .first hclass v v' hv hv'
 
 /-- `final_correct`, proved for `supported` outside the documented classes (in particular outside PF-09:
 `pathTags .last` contains `pf09` exactly when the index used by the code is not the last index of the range):
@@ -107,16 +107,16 @@ theorem initial_correct_partial {pt : PT} {σ : Scope} {mm cm} {P : Pulse} {c o 
 theorem final_correct_partial {pt : PT} {σ : Scope} {mm cm} {P : Pulse} {c o : Chan} {v v' : Rat}
     (hs : supported pt = true) (hreg : regular pt σ = true) (hden : denote pt σ mm cm = .ok P)
     (hinj : InjOn cm pt.definedChannels) (hc : c ∈ pt.definedChannels) (hcm : cm.lookup c = some (some o))
-    (hclass : pathTags .last pt σ mm cm c = .ok [])
+    (hkeep : keeps pt cm = true) (hclass : pathTags .last pt σ mm cm c = .ok [])
     (hv : plEnd .last (pulseVal P o) = some v) (hv' : finalOf pt σ c = .ok v') : v' = v :=
-  (claim pt hs σ mm cm P c o hden hreg hinj hc hcm).2 .last hclass v v' hv hv'
+  (claim pt hs σ mm cm P c o hden hreg hinj hc hcm hkeep).2 .last hclass v v' hv hv'
 
 /-- the three clauses for `create_program` without user mappings (identity channel mapping: the injectivity and
 lookup hypotheses are discharged) -/
 theorem quantities_correct_top_partial {pt : PT} {params : List (String × Rat)} {ctx : Ctx} {P : Pulse} {c : Chan}
     (hs : supported pt = true) (hctx : topCtx pt params none [] [] = .ok ctx)
     (hreg : regular pt (.dict params) = true) (hden : denote pt ctx.scope ctx.mm ctx.cm = .ok P)
-    (hc : c ∈ pt.definedChannels) :
+    (hc : c ∈ pt.definedChannels) (hkeep : keeps pt ctx.cm = true) :
     (∀ r, integralOf pt (.dict params) c = .ok r → r = plIntegral (pulseVal P c)) ∧
     (∀ e, pathTags e pt (.dict params) ctx.mm ctx.cm c = .ok [] → ∀ v v',
       plEnd e (pulseVal P c) = some v → endOf e pt (.dict params) c = .ok v' → v' = v) := by
@@ -124,7 +124,7 @@ theorem quantities_correct_top_partial {pt : PT} {params : List (String × Rat)}
   rw [hsc] at hden
   have hinj : InjOn ctx.cm pt.definedChannels := by rw [hcm]; exact injOn_identity _
   have hl : ctx.cm.lookup c = some (some c) := by rw [hcm]; exact lookup_identity _ c hc
-  exact claim pt hs (.dict params) ctx.mm ctx.cm P c c hden hreg hinj hc hl
+  exact claim pt hs (.dict params) ctx.mm ctx.cm P c c hden hreg hinj hc hl hkeep
 
 /-- the integral of a loop whose range is empty is 0, for every body (PF-09b repaired; the unrepaired code
 returned the body integral at the start index) -/
@@ -216,13 +216,13 @@ theorem pad_holds_last_partial {pt : PT} {σ : Scope} {mm cm} {newDur : Rat} {pa
     (hpad : padTo pt σ newDur = .ok padded) (hden : denote pt σ mm cm = .ok P)
     (hden' : denote padded σ mm cm = .ok P')
     (hnd : hasDup pt.definedChannels = false) (hinj : InjOn cm pt.definedChannels)
-    (hc : c ∈ pt.definedChannels) (hcm : cm.lookup c = some (some o))
+    (hc : c ∈ pt.definedChannels) (hcm : cm.lookup c = some (some o)) (hkeep : keeps pt cm = true)
     (hclass : pathTags .last pt σ mm cm c = .ok [])
     (hv : finalOf pt σ c = .ok v) (hl : plEnd .last (pulseVal P o) = some vl) :
     ∃ D, templateDuration pt σ = .ok D ∧
       pulseVal P' o = pulseVal P o ++ (if newDur - D > 0 then [{ len := newDur - D, v0 := vl, v1 := vl }] else []) := by
   obtain ⟨D, hD, h⟩ := pad_holds_final hpad hden hden' hnd hinj
-  have := final_correct_partial hs hreg hden hinj hc hcm hclass hl hv
+  have := final_correct_partial hs hreg hden hinj hc hcm hkeep hclass hl hv
   subst this
   exact ⟨D, hD, h c o v hc hcm hv⟩
 
